@@ -85,6 +85,11 @@ def _gen_lines(rng, n, junk_rate):
         t = rng.choice(TEXTS)
         nid += 1
         mid = rng.choice([nid, nid, f"s{nid}", f"{nid}", 0, -nid, 2 ** 53 + nid])
+        pad = None
+        if rng.random() < 0.06:
+            # legal strings that begin or end with white space / separator-like characters: they are part of the value
+            pad = rng.choice([" ", "\n", "\u2028", "\u0085", "\t", "\u2029"])
+            mid = rng.choice([f"req-{nid}" + pad, pad + f"e{nid}"])
         k = rng.choice(["request", "response", "error", "notification", "notification"])
         if k == "request":
             o = {"jsonrpc": "2.0", "id": mid, "method": "sampling/createMessage", "params": {"text": t, "n": [1, None, {"k": t}]}}
@@ -96,6 +101,8 @@ def _gen_lines(rng, n, junk_rate):
             o = {"jsonrpc": "2.0", "method": "notifications/message", "params": {"level": "info", "data": t}}
             if rng.random() < 0.2:
                 o = {"jsonrpc": "2.0", "method": "notifications/tools/list_changed"}
+            if pad is not None:
+                o = {"jsonrpc": "2.0", "method": "notifications/progress" + pad, "params": {"key": 1, "key" + pad: 2, pad + "key": 3}}
         txt = json.dumps(o, ensure_ascii=rng.random() < 0.15, separators=rng.choice([(",", ":"), (", ", ": ")]))
         if rng.random() < 0.1:
             txt = "  " + txt + " \t"
@@ -204,7 +211,9 @@ def generate(rng: random.Random, tier: str) -> dict:
     if rng.random() < 0.1:
         half_close = {"child_closes_stdin_at": rng.choice([0, 1, 5]), "client_sends_at": rng.choice([2, 6, 20]), "n": rng.choice([1, 3])}
         gap = max(gap, rng.choice([3, 10]))
-    return {"v": 1, "stdin_stalled": stdin_stalled, "half_close": half_close, "close_read": close_read, "exit_after": exit_after, "prelude": prelude, "legacy_streams": legacy, "lines": lines, "cuts": cuts, "gap": gap, "hops": rng.choice([0, 0, 2]),
+    # the child prints an unterminated progress indicator on its stderr right before it starts talking on stdout
+    stderr_noise = rng.choice(["Loading model 50%...", "WARN: slow start", "{"]) if rng.random() < 0.1 else None
+    return {"v": 1, "stderr_noise": stderr_noise, "stdin_stalled": stdin_stalled, "half_close": half_close, "close_read": close_read, "exit_after": exit_after, "prelude": prelude, "legacy_streams": legacy, "lines": lines, "cuts": cuts, "gap": gap, "hops": rng.choice([0, 0, 2]),
             "protocol_version": pv}
 
 
@@ -239,6 +248,8 @@ SHRINK_LISTS = ["lines", "cuts"]
 
 
 def simplify(scn):
+    if scn.get("stderr_noise"):
+        c = copy.deepcopy(scn); c["stderr_noise"] = None; yield c
     if scn.get("stdin_stalled"):
         c = copy.deepcopy(scn); c["stdin_stalled"] = False; yield c
     if scn.get("half_close"):
@@ -332,6 +343,9 @@ def execute(scn: dict) -> dict:
                 child.write_stdout([b'{"jsonrpc":"2.0","method":"notifications/message","params":{"data":"prelude"}}\n' + scn["prelude"]["tail"].encode("utf-8")[:60]])
                 return
             t = ticks(5) if scn.get("close_read") else 0.0
+            if scn.get("stderr_noise"):
+                sim.at(sim.now() + t, child.write_stderr, scn["stderr_noise"].encode(), tie=0, hops=0)
+                sim.fault("child_wrote_unterminated_text_to_stderr")
             for i, p in enumerate(pieces):
                 sim.at(sim.now() + t, child.write_stdout, [p], tie=0, hops=scn["hops"])
                 t += ticks(scn["gap"])
